@@ -1,7 +1,7 @@
 PROP = dict(
     id="C02",
     lean_modules=["TongoProofs.C02", "TongoProofs.C02Compose"],
-    gen=["LevelMask", "CellDesc", "BocHeader", "MinBits", "TlbTypes", "IntTypes"],  # all regenerated modules its imports (C07, C16) need
+    gen=["LevelMask", "CellDesc"],
     # the model of newImmutableCell is PROVED equal to the TON definition (impl_eq_spec, table_refines_tree), so its
     # answers are the specification: a mismatch on these ops is a violation with the table as failing input.
     # `spec.levels` is answered on the model side by the Lean SPEC itself (Spec.hashAt/depthAt on the unfolded tree).
